@@ -157,29 +157,47 @@ def immutable_any_name(meth):
 
 
 def c15_set_attribute_bits(arg):
-    """keyword branch of _set_attribute_bits for an arbitrary int value: either refused with a translated exception, or
-    the value fits its slot and only that slot of the bitfield changes"""
-    bfoffset, width = arg
+    """keyword branch of _set_attribute_bits for a value of an arbitrary Python kind.  int (any magnitude): either refused
+    with a translated exception, or the value fits its slot and only that slot of the bitfield changes.  Any other kind
+    (float, str, bytes, None): a bit flag has no encoding for it, so it must be refused - a normal return is a violation."""
+    bfoffset, width = arg[0], arg[1]
+    kind = arg[2] if len(arg) > 2 else "int"
     from pvc.builtins_model import KwMap
+    from contracts.helpers import any_value
 
     def kw(ex, name):
         import z3
         from pvc.values import SInt
-        e = z3.Int("flagval")
-        ex.st.inputs["flagval"] = ("int", e)
-        return KwMap({"flag": SInt(e)})
+        if kind == "int":
+            e = z3.Int("flagval")
+            ex.st.inputs["flagval"] = ("int", e)
+            return KwMap({"flag": SInt(e)})
+        return KwMap({"flag": any_value(kind, "U001")(ex, "flagval")})
+
+    def kwnative(inputs):
+        if kind == "int":
+            v = inputs.get("flagval")
+            return {"flag": v if isinstance(v, int) else 0}
+        return {"flag": {"float": 1.5, "str": "1", "bytes": b"1", "none": None}[kind]}
+
+    kw.native = kwnative
 
     def lst(ex, name):
         return ex.st.alloc("list", None, items=[])
 
+    lst.native = lambda v: []
+    if kind == "int":
+        ens = [("fits-its-slot", f"0 <= kwargs['flag'] < {1 << width}"),
+               ("only-its-slot-changes", f"result[0] == bitfield + kwargs['flag'] * {1 << bfoffset}"),
+               ("offset-advances", f"result[1] == {bfoffset + width}")]
+    else:
+        ens = [("non-integer-flag-value-refused", "False")]
     return Contract(
         M + "_set_attribute_bits",
         params={"self": msg_object(immutable=False), "bitfield": "nat", "bfoffset": ("const", bfoffset),
                 "key": ("const", "flag"), "keyt": ("const", "U%03d" % width), "index": lst, "**": kw},
         requires=[f"0 <= bitfield < {1 << bfoffset}"],
-        ensures=[("fits-its-slot", f"0 <= kwargs['flag'] < {1 << width}"),
-                 ("only-its-slot-changes", f"result[0] == bitfield + kwargs['flag'] * {1 << bfoffset}"),
-                 ("offset-advances", f"result[1] == {bfoffset + width}")],
+        ensures=ens,
         raises={k: None for k in ("TypeError", "OverflowError", "ValueError", "AttributeError", "IndexError", "error")},
         modifies=["self.flag"])
 
